@@ -225,8 +225,9 @@ def rule_p(ctx):
         term = [x for x in ast.walk(t) if isinstance(x, ast.Call) and isinstance(x.func, ast.Attribute)
                 and x.func.attr in ('terminate', 'kill') and A.is_name(x.func.value, ex)]
         kind = None
+        lab = label.replace('not (', '').replace('else of ', '')
         for k in TERMINATE_TABLE:
-            if ('%r' % k if k != 'False' else 'is False') in label or (k == 'multiprocessing' and "'multiprocessing'" in label):
+            if (k == 'False' and 'is False' in lab) or (k != 'False' and ('%r' % k) in lab):
                 kind = k
         if cancels:
             nonblocking = all(isinstance(c.func.value, ast.Call) and isinstance(c.func.value.func, ast.Attribute)
